@@ -1,1 +1,13 @@
-// harnesses for src/coroutine_impl (child module, cfg(kani) only)
+// child module of src/coroutine_impl.rs (cfg(kani) only)
+use super::*;
+
+/// a real `Coroutine` handle (real `Park`, real `Cancel`) without spawning anything
+pub fn new_handle() -> Coroutine {
+    Coroutine::new(None, config().get_stack_size())
+}
+pub fn park_of(h: &Coroutine) -> &Park {
+    &h.inner.park
+}
+pub fn cancel_of(h: &Coroutine) -> &Cancel {
+    &h.inner.cancel
+}
